@@ -4792,7 +4792,9 @@ def Attack_rate_discrete_from_graph(G, p, initial_infecteds=None,
         maxk = max(Nk.keys())
         Nk = np.array([Nk[k] for k in range(maxk+1)])
         SS=0
+        SR=0
         SX=0
+        Sk0 = defaultdict(float)
         for node in G.nodes():
             if status[node] == 'S':
                 k = G.degree(node)
@@ -4914,7 +4916,9 @@ def Attack_rate_cts_time_from_graph(G,  tau, gamma, initial_infecteds=None,
         maxk = max(Nk.keys())
         Nk = np.array([Nk[k] for k in range(maxk+1)])
         SS=0
+        SR=0
         SX=0
+        Sk0 = defaultdict(float)
         for node in G.nodes():
             if status[node] == 'S':
                 k = G.degree(node)
